@@ -1180,8 +1180,8 @@ HF_HEADER = ("From Coq Require Import ZArith List.\nImport ListNotations.\n"
              "(maxsize, ops).\n"
              "Definition mkl (ro ml n : Z) (bad : list Z) (ops : list (Z * Z)) := "
              "(ro, ml, n, bad, ops).\n"
-             "Definition mko (ro reuse : Z) (data : list Z) "
-             "(ops : list (Z * Z * Z * Z * list Z)) := (ro, reuse, data, ops).\n")
+             "Definition mko (ro reuse nat : Z) (data : list Z) "
+             "(ops : list (Z * Z * Z * Z * list Z)) := (ro, reuse, nat, data, ops).\n")
 
 
 def run_hashfile_case(case, scratch):
@@ -1436,28 +1436,52 @@ def run_lcl_case(case):
 # 5. per-object array caches
 # --------------------------------------------------------------------------
 OBJ_KINDS = ["hdf5", "child", "grandchild", "basin", "dict", "ancillary"]
+DT_NAMES = {0: None, 1: "float32", 2: "int64", 3: "float64"}
 
 
-def gen_obj_ops(rng, n):
+def dt_code(dt):
+    return {"float32": 1, "int64": 2, "float64": 3}.get(str(dt), 9)
+
+
+def gen_obj_ops(rng, n, lossy_first=None):
+    """Reads (whole, slices, items, fancy, copies, dtype conversions), in-place
+    modification of returned arrays, min/max/mean; in half of the cases the
+    very first access asks for a lossy dtype."""
     ops = []
     nouts = 0
+    if lossy_first is None:
+        lossy_first = rng.random() < 0.5
+    if lossy_first:
+        ops.append(["r", 4, rng.choice([1, 2, 2]), rng.choice([0, 0, 1]), rng.randint(0, 1)])
+        nouts += 1
     for _ in range(rng.randint(12, 40)):
         r = rng.random()
-        if r < 0.3 and nouts:
+        if r < 0.22 and nouts:
             ops.append(["m", rng.randint(0, nouts - 1), rng.choice([8, 16, -24, 56])])
             continue
+        if r < 0.34 and nouts:
+            if rng.random() < 0.7:
+                ops.append(["x", rng.choice(["max", "min", "mean"])])
+            else:
+                ops.append(["x", "cf", rng.choice([0, 1, 2, 3])])
+            continue
         k = rng.random()
-        if k < 0.3:
+        if k < 0.2:
             ops.append(["r", 0, rng.randint(0, 2)])      # [:], asarray, __array__
-        elif k < 0.6:
+        elif k < 0.4:
             lo = rng.randint(0, n)
             hi = rng.randint(0, n + 2)
             ops.append(["r", 1, lo, hi])
-        elif k < 0.8:
+        elif k < 0.52:
             idx = [rng.randint(0, n - 1) for _ in range(rng.randint(1, 4))]
             ops.append(["r", 2, idx, rng.random() < 0.3])
-        else:
+        elif k < 0.6:
             ops.append(["r", 3])
+        elif k < 0.85:
+            ops.append(["r", 4, rng.choice([0, 1, 2, 2, 3]), rng.choice([0, 0, 1]),
+                        rng.randint(0, 1)])
+        else:
+            ops.append(["r", 5, rng.randint(0, n - 1)])
         nouts += 1
     return ops
 
@@ -1465,8 +1489,10 @@ def gen_obj_ops(rng, n):
 OBJ_HEADER = HF_HEADER
 
 
-def run_obj_ops(obj, data8, ops):
-    """obj: the feature object; data8: expected data * 8 as ints."""
+def run_obj_ops(obj, data8, ops, nat=3):
+    """obj: the feature object; data8: expected data * 8 as ints; nat: dtype
+    code of the data. The reference for every request is the same request on
+    a plain ndarray holding the expected data."""
     np = _np()
     flat = []
     rops = []
@@ -1475,10 +1501,18 @@ def run_obj_ops(obj, data8, ops):
     n = len(data8)
     attempts = 0
     reads_after = 0
+    exp = (np.array(data8, dtype=np.int64) // 8 if nat == 2
+           else np.array(data8, dtype=np.float64) / 8)
 
     def enc(a):
-        a = np.asarray(a, dtype=np.float64) * 8
+        a = np.atleast_1d(np.asarray(a)).astype(np.float64) * 8
         return [int(v) for v in a]
+
+    def same(res, want):
+        res = np.asarray(res)
+        want = np.asarray(want)
+        return (res.shape == want.shape and str(res.dtype) == str(want.dtype)
+                and bool(np.array_equal(res, want)))
 
     for i, op in enumerate(ops):
         if op[0] == "m":
@@ -1495,15 +1529,38 @@ def run_obj_ops(obj, data8, ops):
             flat += [5, ok]
             rops.append("(1, %d, %s, 0, [])" % (j, common.zlit(delta)))
             continue
+        if op[0] == "x":
+            # requests outside the model: compared with the plain ndarray only
+            rops.append("(0, 6, 0, 0, [])")
+            if op[1] == "cf":
+                dt = DT_NAMES[op[2]]
+                okc, vc = safe_call(lambda: np.array(obj, dtype=dt, copy=False))
+                okf, vf = safe_call(lambda: np.array(exp, dtype=dt, copy=False))
+                # whether "a copy cannot be avoided" raises is numpy protocol,
+                # not caching: a returned value must be right, an exception is
+                # accepted where the plain array raises too
+                bad = ((okc and not same(vc, np.array(exp, dtype=dt)))
+                       or (not okc and (okf or vc != vf)))
+            else:
+                okc, vc = safe_call(lambda: float(getattr(obj, op[1])()))
+                vf = float({"max": np.nanmax, "min": np.nanmin,
+                            "mean": np.nanmean}[op[1]](exp))
+                bad = (not okc) or abs(vc - vf) > 1e-9 * max(1.0, abs(vf))
+                okf = True
+            if bad and fail is None:
+                fail = "request %d (%s): %s, a plain array gives %s" % (
+                    i, json.dumps(op), vc if not okc else "another value/dtype",
+                    vf if not okf else "its value")
+            continue
         kind = op[1]
         if kind == 0:
             res = [lambda: obj[:], lambda: np.asarray(obj),
                    lambda: obj.__array__()][op[2]]()
-            want = data8
+            want = exp
             rops.append("(0, 0, 0, 0, [])")
         elif kind == 1:
             res = obj[op[2]:op[3]]
-            want = data8[op[2]:op[3]]
+            want = exp[op[2]:op[3]]
             rops.append("(0, 1, %d, %d, [])" % (op[2], op[3]))
         elif kind == 2:
             idx = op[2]
@@ -1514,57 +1571,139 @@ def run_obj_ops(obj, data8, ops):
                 res = obj[mask]
             else:
                 res = obj[list(idx)]
-            want = [data8[k] for k in idx]
+            want = exp[list(idx)]
             rops.append("(0, 2, 0, 0, %s)" % common.zlist(idx))
-        else:
+        elif kind == 3:
             res = np.array(obj, copy=True)
-            want = data8
+            want = exp
             rops.append("(0, 3, 0, 0, [])")
+        elif kind == 4:
+            d, cp, form = op[2], op[3], op[4]
+            dt = DT_NAMES[d]
+            if cp:
+                res = np.array(obj, dtype=dt, copy=True)
+            elif form == 0:
+                res = np.asarray(obj, dtype=dt)
+            else:
+                res = np.array(obj, dtype=dt, copy=None)
+            want = np.array(exp, dtype=dt)
+            rops.append("(0, 4, %d, %d, [])" % (d, cp))
+        else:
+            res = np.array([obj[op[2]]])
+            want = exp[op[2]:op[2] + 1]
+            rops.append("(0, 5, %d, 0, [])" % op[2])
         if attempts:
             reads_after += 1
         outs.append(res)
         got = enc(res)
-        flat += [0, len(got)] + got
-        if got != list(want) and fail is None:
-            fail = ("read %d (%s) returned %s..., the stored data are %s..." %
-                    (i, json.dumps(op), got[:6], list(want)[:6]))
+        flat += [0, dt_code(res.dtype), len(got)] + got
+        if not same(res, want) and fail is None:
+            fail = ("read %d (%s) returned %s %s..., the same request on the stored "
+                    "data gives %s %s..." % (i, json.dumps(op), res.dtype, got[:6],
+                                             want.dtype, enc(want)[:6]))
     return dict(flat=flat, rops=rops, fail=fail,
                 nontrivial=attempts > 0 and reads_after > 0)
 
 
+def obj_render(kind, nat, data8, rops):
+    return "mko 1 %d %d %s %s" % (0 if kind == "basin" else 1, nat,
+                                  common.zlist(data8), common.clist(rops))
+
+
+# --- non-scalar basin features (no cache of their own): oracle only --------
+def gen_objnd_ops(rng, n):
+    ops = []
+    if rng.random() < 0.5:
+        ops.append(["conv", rng.choice([1, 2]), rng.choice([0, 1])])
+    for _ in range(rng.randint(6, 16)):
+        r = rng.random()
+        if r < 0.3:
+            ops.append(["conv", rng.choice([0, 1, 2, 3]), rng.choice([0, 1])])
+        elif r < 0.5:
+            ops.append(["all"])
+        elif r < 0.75:
+            ops.append(["item", rng.randint(0, n - 1)])
+        else:
+            a = rng.randint(0, n - 1)
+            ops.append(["slice", a, rng.randint(a, n)])
+    return ops
+
+
+def run_objnd_ops(obj, exp, ops):
+    np = _np()
+    fail = None
+    for i, op in enumerate(ops):
+        if op[0] == "conv":
+            dt = DT_NAMES[op[1]]
+            f = (lambda o: np.array(o, dtype=dt, copy=True)) if op[2] else \
+                (lambda o: np.asarray(o, dtype=dt))
+        elif op[0] == "all":
+            def f(o):
+                return np.asarray(o[:])
+        elif op[0] == "item":
+            def f(o):
+                return np.asarray(o[op[1]])
+        else:
+            def f(o):
+                return np.asarray(o[op[1]:op[2]])
+        okc, vc = safe_call(f, obj)
+        okf, vf = safe_call(f, exp)
+        bad = (okc != okf) or (okc and canon(vc) != canon(vf))
+        if bad and fail is None:
+            fail = "request %d (%s) on a non-scalar basin feature differs from the " \
+                   "same request on the stored data" % (i, json.dumps(op))
+    return dict(fail=fail, nontrivial=len(ops) > 3)
+
+
+def _write_basin_pair(scratch, tag, feats_data, bmap, meta):
+    """source file with the features, second file referring to it as a mapped
+    basin; -> (path, basin path or None)"""
+    np = _np()
+    from dclab.rtdc_dataset.writer import RTDCWriter
+    from . import gen
+    n = len(next(iter(feats_data.values())))
+    path = os.path.join(scratch, "obj_%s.rtdc" % tag)
+    gen.write_spec(path, dict(n=n, features=feats_data, meta=meta))
+    bpath = os.path.join(scratch, "obj_%s_basin.rtdc" % tag)
+    with RTDCWriter(bpath, mode="reset") as hw:
+        hw.store_metadata(meta)
+        hw.store_feature("userdef9", np.arange(len(bmap), dtype=np.float64))
+        hw.store_basin(basin_name="verif", basin_type="file",
+                       basin_format="hdf5", basin_locs=[path],
+                       basin_feats=sorted(feats_data), basin_map=np.asarray(bmap, dtype=np.uint64))
+    return path, bpath
+
+
 def build_obj_world(run, scratch, tag):
     """Write one dataset + a second one with a mapped basin; returns a list of
-    (kind, feature, opener) where opener() -> (context objects, feature object,
-    expected data*8)."""
+    (kind, feature, native dtype code, opener); opener() -> (context objects,
+    feature object, expected data*8 or expected ndarray)."""
     np = _np()
     import dclab
-    from dclab.rtdc_dataset.writer import RTDCWriter
     from . import gen
     rng = run.rng
     n = rng.randint(6, 14)
-    spec = gen.random_dataset_spec(rng, n, kinds=("scalar",), nscalars=4)
-    feats = sorted(spec["features"])
-    path = os.path.join(scratch, "obj_%s.rtdc" % tag)
-    gen.write_spec(path, spec)
+    spec = gen.random_dataset_spec(rng, n, kinds=("scalar", "image"), nscalars=4)
+    feats = sorted(f for f in spec["features"] if f != "image")
     data = {f: np.asarray(spec["features"][f], dtype=np.float64) for f in feats}
+    image = spec["features"]["image"]
     keep1 = np.array([rng.random() < 0.75 for _ in range(n)])
     keep1[0] = True
     keep2 = np.array([rng.random() < 0.75 for _ in range(int(keep1.sum()))])
     keep2[0] = True
     bmap = np.array([rng.randint(0, n - 1) for _ in range(rng.randint(3, 10))],
                     dtype=np.uint64)
-    bpath = os.path.join(scratch, "obj_%s_basin.rtdc" % tag)
     basin_ok = True
+    path = bpath = None
     try:
-        with RTDCWriter(bpath, mode="reset") as hw:
-            hw.store_metadata(spec["meta"])
-            hw.store_feature("userdef9", np.arange(len(bmap), dtype=np.float64))
-            hw.store_basin(basin_name="verif", basin_type="file",
-                           basin_format="hdf5", basin_locs=[path],
-                           basin_feats=feats, basin_map=bmap)
+        path, bpath = _write_basin_pair(scratch, tag, dict(spec["features"]), bmap,
+                                        spec["meta"])
     except Exception as e:  # pragma: no cover
         basin_ok = False
         run.notes.append("basin file not written: %r" % (e,))
+        path = os.path.join(scratch, "obj_%s.rtdc" % tag)
+        if not os.path.exists(path):
+            gen.write_spec(path, spec)
 
     def d8(a):
         return [int(v) for v in np.asarray(a, dtype=np.float64) * 8]
@@ -1595,6 +1734,10 @@ def build_obj_world(run, scratch, tag):
         ds = dclab.new_dataset(bpath)
         return [ds], ds[f], d8(data[f][bmap.astype(int)])
 
+    def open_basin_nd():
+        ds = dclab.new_dataset(bpath)
+        return [ds], ds["image"], image[bmap.astype(int)]
+
     def open_dict(f):
         ds = dclab.new_dataset({k: data[k].copy() for k in feats})
         return [ds], ds[f], d8(data[f])
@@ -1605,74 +1748,121 @@ def build_obj_world(run, scratch, tag):
 
     world = []
     for f in feats:
-        world.append(("hdf5", f, lambda f=f: open_hdf5(f)))
-        world.append(("child", f, lambda f=f: open_child(f, 1)))
-        world.append(("grandchild", f, lambda f=f: open_child(f, 2)))
+        world.append(("hdf5", f, 3, lambda f=f: open_hdf5(f)))
+        world.append(("child", f, 3, lambda f=f: open_child(f, 1)))
+        world.append(("grandchild", f, 3, lambda f=f: open_child(f, 2)))
         if basin_ok:
-            world.append(("basin", f, lambda f=f: open_basin(f)))
-        world.append(("dict", f, lambda f=f: open_dict(f)))
-    world.append(("ancillary", "index", lambda: open_anc("index")))
+            world.append(("basin", f, 3, lambda f=f: open_basin(f)))
+        world.append(("dict", f, 3, lambda f=f: open_dict(f)))
+    world.append(("ancillary", "index", 2, lambda: open_anc("index")))
+    if basin_ok:
+        world.append(("basin-nd", "image", 0, open_basin_nd))
     return world
 
 
-def run_obj_checks(run, nworlds):
+def _close_all(objs):
+    for o in reversed(objs):
+        try:
+            o.__exit__(None, None, None)
+        except Exception:
+            pass
+
+
+def run_obj_checks(run, nworlds, kinds=None):
     """-> list of (case, result) for correspondence"""
     results = []
     for w in range(nworlds):
-        world = build_obj_world(run, run.scratch, "w%d" % w)
-        for kind, feat, opener in world:
+        world = build_obj_world(run, run.scratch, "w%d_%d" % (os.getpid(), w))
+        for kind, feat, nat, opener in world:
+            if kinds and kind not in kinds:
+                continue
             try:
-                objs, obj, data8 = opener()
+                objs, obj, expd = opener()
             except Exception as e:
                 run.notes.append("obj %s/%s not opened: %r" % (kind, feat, e))
                 continue
             try:
-                ops = gen_obj_ops(run.rng, len(data8))
-                case = dict(kind="obj", obj=kind, feat=feat, data8=data8, ops=ops)
-                res = run_obj_ops(obj, data8, ops)
-                res["render"] = "mko 1 %d %s %s" % (
-                    0 if kind == "basin" else 1, common.zlist(data8),
-                    common.clist(res["rops"]))
+                if kind == "basin-nd":
+                    ops = gen_objnd_ops(run.rng, len(expd))
+                    case = dict(kind="objnd", img=[[int(v) for v in row.ravel()]
+                                                   for row in expd],
+                                shape=list(expd.shape[1:]), ops=ops)
+                    res = run_objnd_ops(obj, expd, ops)
+                else:
+                    ops = gen_obj_ops(run.rng, len(expd))
+                    case = dict(kind="obj", obj=kind, feat=feat, data8=expd, nat=nat,
+                                ops=ops)
+                    res = run_obj_ops(obj, expd, ops, nat)
+                    res["render"] = obj_render(kind, nat, expd, res["rops"])
                 results.append((case, res))
             finally:
-                for o in reversed(objs):
-                    try:
-                        o.__exit__(None, None, None)
-                    except Exception:
-                        pass
+                _close_all(objs)
     return results
 
 
 def replay_obj_case(case, scratch):
-    """Re-create an equivalent object: a file holding exactly data8/8."""
+    """Re-create an equivalent object of the same kind holding data8/8."""
     np = _np()
     import dclab
     from . import gen
-    data = np.array(case["data8"], dtype=np.float64) / 8
-    n = len(data)
     _REPLAY_N[0] += 1
-    path = os.path.join(scratch, "replay_obj_%d_%d.rtdc" % (os.getpid(), _REPLAY_N[0]))
-    spec = dict(n=n, features={"deform": data}, meta=gen.base_meta())
-    kind = case["obj"]
-    if kind == "dict":
-        ds = dclab.new_dataset({"deform": data.copy()})
-        obj = ds["deform"]
-    else:
-        gen.write_spec(path, spec)
-        ds = dclab.new_dataset(path)
-        if kind in ("hdf5", "basin", "ancillary"):
+    tag = "replay_%d_%d" % (os.getpid(), _REPLAY_N[0])
+    meta = gen.base_meta()
+    objs = []
+    try:
+        if case["kind"] == "objnd":
+            exp = np.array(case["img"], dtype=np.uint8).reshape([-1] + list(case["shape"]))
+            n = len(exp)
+            bmap = list(range(n))[::-1]
+            path, bpath = _write_basin_pair(
+                scratch, tag, {"image": exp[::-1].copy(),
+                               "deform": np.linspace(0.01, 0.02, n)}, bmap, meta)
+            ds = dclab.new_dataset(bpath)
+            objs.append(ds)
+            return run_objnd_ops(ds["image"], exp, case["ops"])
+        nat = case.get("nat", 3)
+        kind = case["obj"]
+        data = np.array(case["data8"], dtype=np.float64) / 8
+        n = len(data)
+        if kind == "dict":
+            ds = dclab.new_dataset({"deform": data.copy()})
+            objs.append(ds)
+            obj = ds["deform"]
+        elif kind == "ancillary" or nat == 2:
+            path = os.path.join(scratch, tag + ".rtdc")
+            gen.write_spec(path, dict(n=n, features={"deform": np.linspace(.01, .02, n)},
+                                      meta=meta))
+            ds = dclab.new_dataset(path)
+            objs.append(ds)
+            obj = ds["index"]
+        elif kind == "basin":
+            bmap = list(range(n))[::-1]
+            path, bpath = _write_basin_pair(scratch, tag, {"deform": data[::-1].copy()},
+                                            bmap, meta)
+            ds = dclab.new_dataset(bpath)
+            objs.append(ds)
             obj = ds["deform"]
         else:
-            ch = dclab.new_dataset(ds)
-            ch.rejuvenate()
-            if kind == "grandchild":
-                ch = dclab.new_dataset(ch)
+            path = os.path.join(scratch, tag + ".rtdc")
+            gen.write_spec(path, dict(n=n, features={"deform": data}, meta=meta))
+            ds = dclab.new_dataset(path)
+            objs.append(ds)
+            if kind == "hdf5":
+                obj = ds["deform"]
+            else:
+                ch = dclab.new_dataset(ds)
                 ch.rejuvenate()
-            obj = ch["deform"]
-    res = run_obj_ops(obj, case["data8"], case["ops"])
-    res["render"] = "mko 1 1 %s %s" % (common.zlist(case["data8"]),
-                                       common.clist(res["rops"]))
-    return res
+                objs.append(ch)
+                if kind == "grandchild":
+                    ch = dclab.new_dataset(ch)
+                    ch.rejuvenate()
+                    objs.append(ch)
+                obj = ch["deform"]
+        res = run_obj_ops(obj, case["data8"], case["ops"], nat)
+        res["render"] = obj_render(kind, nat, case["data8"], res["rops"])
+        return res
+    finally:
+        _close_all(objs)
 
 
 # --------------------------------------------------------------------------
@@ -1716,7 +1906,7 @@ def exec_case(case, scratch, memos=None):
         return run_hashfile_case(case, scratch)
     if k == "lcl":
         return run_lcl_case(case)
-    if k == "obj":
+    if k in ("obj", "objnd"):
         return replay_obj_case(case, scratch)
     raise ValueError("unknown case kind %r" % (k,))
 
@@ -1790,6 +1980,8 @@ def run(run):
         run.count("kind:" + k)
         if k == "obj":
             run.count("obj:" + c["obj"])
+            if c["ops"] and c["ops"][0][:2] == ["r", 4] and c["ops"][0][2] in (1, 2):
+                run.count("obj:lossy-dtype-first")
         if k == "cache":
             run.count("cache:cap=%d" % c["cap"])
             run.count("cache:calls", len(c["ops"]))
@@ -1856,8 +2048,8 @@ def run(run):
 def shrink(run, failure):
     case = failure["case"]
     kind = case.get("kind")
-    if kind not in ("cache", "public", "dsapi", "anc", "ufunc", "hashfile", "lcl", "obj") \
-            or "ops" not in case:
+    if kind not in ("cache", "public", "dsapi", "anc", "ufunc", "hashfile", "lcl", "obj",
+                    "objnd") or "ops" not in case:
         return failure
 
     def fails(c):
@@ -1892,6 +2084,10 @@ def search(run, broken):
     """Proof or correspondence broken, oracle quiet so far: a larger sweep of
     the model-independent oracle on the real code."""
     rng = run.rng
+    # cheap and close to most correspondence disagreements: the per-object caches
+    for case, res in run_obj_checks(run, 12 if run.thorough else 5):
+        if res.get("fail"):
+            return shrink(run, dict(case=case, desc="[obj] " + res["fail"]))
     n = 400 if run.thorough else 60
     gens = [lambda: gen_cache_case(rng, True), lambda: gen_cache_case(rng, True, big=True),
             lambda: gen_public_case(rng), lambda: gen_dsapi_case(rng),
@@ -1902,9 +2098,6 @@ def search(run, broken):
         res = exec_case(c, run.scratch)
         if res.get("fail") and classify(c, res["fail"]) is None:
             return shrink(run, dict(case=c, desc=res["fail"]))
-    for case, res in run_obj_checks(run, 4):
-        if res.get("fail"):
-            return dict(case=case, desc="[obj] " + res["fail"])
     return None
 
 
